@@ -165,8 +165,8 @@ theorem node_valid {F : Forest H} {T : Nat} (hT : F.rows ≤ T) {d : Pos} {h : H
 theorem FInv.n_lt64 {m : MapPollard H} {F : Forest H} (s : FInv m F) : F.numLeaves < 2 ^ 64 := by
   have := s.n_lt; omega
 
-theorem FInv.laws (cr : CR H) {m : MapPollard H} {F : Forest H} (s : FInv m F) : Laws F.nodes (FRoot F) :=
-  laws_forest cr F s.n_lt64 s.hyg
+theorem FInv.laws (nz : NZ H) {m : MapPollard H} {F : Forest H} (s : FInv m F) : Laws F.nodes (FRoot F) :=
+  laws_forest nz F s.n_lt64 s.hyg
 
 /-- the abstract form of the invariant -/
 theorem FInv.abs {m : MapPollard H} {F : Forest H} (s : FInv m F) :
@@ -254,8 +254,8 @@ theorem FInv.of_abs {m : MapPollard H} {F : Forest H} {T : Nat} {A : Pos → Opt
 /-- **a full forest satisfying `FInv` satisfies the storage invariant `Inv`** of `Props/C09.lean`
 (whose flag clause is about `full = false` only): hence its look-ups tell the truth, its roots are
 the specification's and `Prove` returns the canonical proof -/
-theorem FInv.inv (cr : CR H) {m : MapPollard H} {F : Forest H} (s : FInv m F) : Inv m F := by
-  have L := s.laws cr
+theorem FInv.inv (nz : NZ H) {m : MapPollard H} {F : Forest H} (s : FInv m F) : Inv m F := by
+  have L := s.laws nz
   have hn := s.n_lt64
   obtain ⟨A, C, rep, fa⟩ := s.abs
   have hcached : ∀ x t, (t, x, true) ∈ F.nodes → m.hasCached x = true := by
@@ -268,7 +268,7 @@ theorem FInv.inv (cr : CR H) {m : MapPollard H} {F : Forest H} (s : FInv m F) : 
     exact ⟨q, node_valid s.rows_le hm, hp, SpecNodes.nodeAt_of_mem hm⟩
   · intro x p hc
     obtain ⟨t, hm, hp⟩ := (s.cached x p).1 hc
-    exact ⟨t, (posOf_iff F hn s.hyg cr).2 hm, hp⟩
+    exact ⟨t, (posOf_iff F hn s.hyg nz).2 hm, hp⟩
   · intro q l hv hg
     have hA : A q = some l := by rw [← rep.node q hv]; exact hg
     obtain ⟨b, hb⟩ := fa.mem hA
@@ -279,7 +279,7 @@ theorem FInv.inv (cr : CR H) {m : MapPollard H} {F : Forest H} (s : FInv m F) : 
       have hne : q.1 ≠ R := nonroot_row_ne hbr hr
       have hnz : l.hash ≠ zero := L.nonzero_of_nonroot hb (not_froot_iff.2 hr)
       obtain ⟨t, x, ht, ha⟩ := L.has_leaf q _ b hb hnz
-      exact (allowed_nonroot_iff hbr hne).2 ⟨x, t, hcached x t ht, (posOf_iff F hn s.hyg cr).2 ht, ha.1,
+      exact (allowed_nonroot_iff hbr hne).2 ⟨x, t, hcached x t ht, (posOf_iff F hn s.hyg nz).2 ht, ha.1,
         Anc.trans (anc_parent_self q) ha⟩
   · intro q hreq
     obtain ⟨R, hbr⟩ := required_belowRoot hreq
